@@ -136,10 +136,12 @@ PROPS = {
         level_text=("Constructor::is_covered_by: Int/Bool/Product/Wildcard pairs proved by Kani over full domains; float and string literal "
                     "spellings (every lexable spelling of length <= 5 over digits 0,1,5,9 plus long spellings) checked exhaustively: covered "
                     "iff both spellings denote the same binary64 value. ConstructorSet::split partition facts for Bool/Product/Unlistable."),
-        level_note=("Second sentence of the property and leaves only: the usefulness recursion (unspecialize), arity and the enum split are "
-                    "not decided (same obstacle as C12). Float part is bounded enumeration, not proof."),
-        technique="Kani loop-free harnesses + exhaustive bounded execution of sliced real leaves",
-        scope="exhaustiveness leaves",
+        level_note=("Second sentence of the property and leaves only: the usefulness recursion (unspecialize), arity, the enum split and the construction "
+                    "of the pattern matrix from the AST are not under contract (same obstacle as C12); a bounded black-box stand-in samples the whole "
+                    "checker (`C13.cli.redundancy.sampled`: 324 matches over a two-bool record - named patterns in both field orders, positional - and a "
+                    "(bool, bool) tuple, against a four-value model written from the statement). Float part is bounded enumeration, not proof."),
+        technique="Kani loop-free harnesses + exhaustive bounded execution of sliced real leaves + bounded CLI stand-in for the whole redundancy check",
+        scope="exhaustiveness leaves; sampled whole-checker redundancy verdicts",
         assumptions=[],
     ),
     "C16": dict(
@@ -251,15 +253,17 @@ PROPS = {
         scope="numeric literal scanning, escapes, delimiter scanning; constant pushes",
         assumptions=[]),
     "C33": dict(
-        units=["u11_lexer"], level="model_checking",
+        units=["u11_lexer", "u20_diag"], level="model_checking",
         level_text=("Span units only: for emit/emit_with_skipped a token's span must equal [byte offset of its first char, byte offset after its last char) of the "
                     "source, on inputs with multi-byte characters (<= 4-6 chars, Kani; open finding); the same postcondition on ASCII-only sources (Kani) and, for "
                     "every ASCII text of <= 5 (7) atoms, the source text under each token's span is that token's text (exhaustive bounded execution of tokenize_file); "
                     "numeric literals: span as long as the literal including `_` separators."),
         level_note=("The postcondition is derived from the byte-indexed consumers (Location::range into codespan, line_number_for_index). One known finding: "
-                    "spans are char indices. Not covered: string-token spans, per-error-kind ranges in error.rs, parser/typechecker diagnostics."),
-        technique="Kani/CBMC bounded verification of the verbatim lexer.rs + CLI replay",
-        scope="token spans",
+                    "spans are char indices. Parser / type-checker diagnostics are out of every contract's reach (AST locations travel through Rc nodes and the "
+                    "checker's maps); a bounded black-box stand-in (`C33.cli.diagnostic_ranges.sampled`: 11 pure-ASCII programs whose leading diagnostic must "
+                    "cover exactly the source text of the construct it names) samples them. Not covered: per-error-kind ranges in error.rs beyond that table."),
+        technique="Kani/CBMC bounded verification of the verbatim lexer.rs + bounded CLI stand-in for parser/type-checker diagnostics + CLI replay",
+        scope="token spans; sampled parser/type-checker diagnostic ranges",
         assumptions=[]),
     "C05": dict(
         units=["u9_opt", "u1_int", "u2_float", "u17_codegen"], level="proof",
